@@ -3,7 +3,7 @@
 # usage: lib/wave_verify.sh <prop> <k: 1|2|3> <crate> <test-filter>      -> prints CONFIRMED / NOT-CONFIRMED
 prop="$1"; k="$2"; crate="$3"; filter="$4"
 sfx=""; [ "$k" = "1" ] || sfx="$k"
-wt=/tmp/seed/$prop
+wt=${WAVE_ROOT:-/tmp/seed}/$prop
 out=$(/verif/lib/verify_seed.sh "$wt" "$wt/patch$sfx.diff" "$wt/demo$sfx.diff" "$crate" "$filter" 2>&1)
 echo "$out"
 if echo "$out" | grep -q "3371 passed" && echo "$out" | grep -q "demo with change: rc=10*1 " && echo "$out" | grep -q "demo without change: rc=0 .*ok"; then
